@@ -14,7 +14,9 @@ git -C /repo apply "$PWD/$dir/patch.diff" || { echo "patch does not apply"; exit
 trap 'git -C /repo checkout -- . ; git -C /repo clean -fdq -- . 2>/dev/null' EXIT
 rc_all=0
 for c in $checks; do
+  [ -f evidence/$c.json ] && cp evidence/$c.json /tmp/evidence-$c.json.saved
   out=$(./check "$c" 2>&1); rc=$?
+  [ -f /tmp/evidence-$c.json.saved ] && mv /tmp/evidence-$c.json.saved evidence/$c.json
   echo "== $id / $c : exit $rc"
   echo "$out" | grep -E "^(VIOLATION|OK|KNOWN-FINDING|BROKEN|FAILING-INPUT)" | cut -c1-400 | head -8
   [ $rc -ne 0 ] && rc_all=1
